@@ -220,8 +220,7 @@ class CLI:
                     continue
                 self.detect_file(mo, file)
                 if inspect:
-                    mo.inspect()
-                    print()
+                    self.inspect_file(mo, file)
         elif self._args.bucket_name:
             if self._args.prefix:
                 if self._args.suffix:
@@ -253,8 +252,7 @@ class CLI:
                     continue
                 self.detect_file(mo, mos_file_key)
                 if inspect:
-                    mo.inspect()
-                    print()
+                    self.inspect_file(mo, mos_file_key)
         else:
             sys.stderr.write("Files or bucket name and prefix or key must be provided\n\n")
             self.print_usage_help()
@@ -265,6 +263,14 @@ class CLI:
             print(f"{filename}: {mo.__class__.__name__} (completed)")
         else:
             print(f"{filename}: {mo.__class__.__name__}")
+
+    def inspect_file(self, mo, filename):
+        try:
+            mo.inspect()
+        except Exception as e:
+            # an incomplete message must not stop the remaining files
+            sys.stderr.write(f"{filename}: cannot inspect ({e})\n")
+        print()
 
     def do_merge(self):
         self._args.cmd = 'merge'
